@@ -284,6 +284,11 @@ impl Session {
         s
     }
 
+    /// the client side of the channel goes away without any clean-up command
+    pub fn kill_receiver(&mut self) {
+        self.rx.close();
+    }
+
     pub fn drain(&mut self) -> Vec<String> {
         let mut out = vec![];
         while let Ok(Some(m)) = self.rx.try_next() {
